@@ -66,6 +66,8 @@ int self();                              // thread id or -1
 int nthreads();
 void setRole(int tid, int role);
 int role(int tid);
+/** Stall fault injected from a script: the first thread with this role is not scheduled for the next n steps. */
+void freezeRole(int role, long steps);
 void yield(int site);                    // sim point
 long long now();                         // virtual ns
 void advance(long long ns);              // work performed by the calling thread
